@@ -2,6 +2,7 @@ package mon
 
 import (
 	"fmt"
+	"reflect"
 
 	"verif/harness/core"
 	"verif/harness/gen"
@@ -112,6 +113,69 @@ func c12Compare(c *core.Ctx, root ast.Vertex, w core.Witness, parsed bool) int {
 	return len(want)
 }
 
+// c12Rewrite: a visitor that rewrites the node it is being handed (constant folding, desugaring): when the visitor
+// is given the root of a synthetic node it replaces every child of that node by a new leaf. What the traverser
+// presents afterwards must be what the tree holds then — the replacements, in slot order — and nothing that has
+// just been cut out of the tree.
+func c12Rewrite(c *core.Ctx, root ast.Vertex, w core.Witness) {
+	var repl, got []ast.Vertex
+	var slots []string
+	fv := &FuncVisitor{}
+	fv.F = func(n ast.Vertex, _ string) {
+		got = append(got, n)
+		if n != root || repl != nil {
+			return
+		}
+		rv := reflect.ValueOf(root).Elem()
+		for _, f := range obs.Fields(root) {
+			fld := rv.FieldByName(f.Name)
+			switch f.Kind {
+			case obs.FNode:
+				if f.Node != nil {
+					l := &ast.Identifier{Value: []byte("replacement")}
+					fld.Set(reflect.ValueOf(l))
+					repl = append(repl, l)
+					slots = append(slots, f.Name)
+				}
+			case obs.FNodes:
+				if len(f.Nodes) > 0 {
+					nl := make([]ast.Vertex, len(f.Nodes))
+					for i := range nl {
+						l := &ast.Identifier{Value: []byte("replacement")}
+						nl[i] = l
+						repl = append(repl, l)
+						slots = append(slots, f.Name)
+					}
+					fld.Set(reflect.ValueOf(nl))
+				}
+			}
+		}
+	}
+	if p := obs.Try(func() { traverser.NewTraverser(fv).Traverse(root) }); p != nil {
+		c.Violation(p.Sig, "traverser panicked under a rewriting visitor: "+p.Msg, w)
+		return
+	}
+	if len(repl) == 0 {
+		return
+	}
+	c.Add("rewriting_visitor_traversals", 1)
+	want := append([]ast.Vertex{root}, repl...)
+	for i := 0; i < len(want) || i < len(got); i++ {
+		switch {
+		case i >= len(got):
+			c.Violation("traverse|rewrite|"+obs.Kind(root)+"."+slots[i-1]+"|replacement-never-presented", fmt.Sprintf("the visitor replaced the children of the %s it was handed; the new child in slot %s was never presented", obs.Kind(root), slots[i-1]), w)
+			return
+		case i >= len(want) || got[i] != want[i]:
+			slot := "?"
+			if i >= 1 && i-1 < len(slots) {
+				slot = slots[i-1]
+			}
+			c.Violation("traverse|rewrite|"+obs.Kind(root)+"."+slot+"|detached-child-presented", fmt.Sprintf("the visitor replaced the children of the %s it was handed; visit #%d nevertheless delivered a %s that is not in the tree any more (slot %s)", obs.Kind(root), i, obs.Kind(got[i]), slot), w)
+			return
+		}
+	}
+}
+
 // c12Where names the slot holding n: "<parent kind>.<role>".
 func c12Where(root, n ast.Vertex) string {
 	out := obs.Kind(n)
@@ -128,7 +192,7 @@ func c12Where(root, n ast.Vertex) string {
 func init() {
 	core.Register(&core.Check{
 		ID:   "C12",
-		Rule: "cases = G5 synthetic nodes: every node kind x slot subsets (all 2^k for k<=12, else single/double toggles + PRNG subsets), the Stmt slot alternately holding a nested StmtStmtList  ++  trees parsed from the shared parse workload (corpus, hostile inputs, generated programs of both families in PRNG layouts) under PRNG versions, every second one walked by a long-lived Traverser that has walked other trees before; non-trivial = a tree with at least 2 nodes was traversed; distinct by (kind, subset) / (input, version)",
+		Rule: "cases = G5 synthetic nodes: every node kind x slot subsets (all 2^k for k<=12, else single/double toggles + PRNG subsets), the Stmt slot alternately holding a nested StmtStmtList, each also walked with a visitor that replaces the children of the node it is handed (the replacements must be presented, the detached children not)  ++  trees parsed from the shared parse workload (corpus, hostile inputs, generated programs of both families in PRNG layouts) under PRNG versions, every second one walked by a long-lived Traverser that has walked other trees before; non-trivial = a tree with at least 2 nodes was traversed; distinct by (kind, subset) / (input, version)",
 		Assumptions: []string{
 			"the reflection walk over exported ast.Vertex / []ast.Vertex fields in declaration order defines 'the tree' and slot order",
 			"source order of siblings is judged by StartPos on error-free parses only (positions of trees with errors may be partial)",
@@ -145,6 +209,7 @@ func init() {
 				w := core.Witness{Cfg: map[string]string{"kind": sc.Kind, "present": presentString(zero, sc.Present)}}
 				k := c12Compare(c, n, w, false)
 				c.Add("synthetic_nodes_visited", int64(k))
+				c12Rewrite(c, n, w.With("visitor", "rewrites the children of the node it is handed"))
 				c.Cover("synthetic_kinds", sc.Kind)
 				if k >= 2 {
 					c.NonTrivial([]byte(sc.Kind), []byte(w.Cfg["present"]))
